@@ -23,3 +23,11 @@ pub use super::stream_id::verif_h::*;
 pub use super::util::verif_h::*;
 #[allow(unused_imports)]
 pub use super::reason::verif_h::*;
+
+/// `Bytes` of fixed capacity N with symbolic content and (possibly symbolic)
+/// length n <= N, built without a symbolic-size allocation: the array is leaked
+/// to a `&'static` and sliced (static vtable: slicing is pointer arithmetic).
+pub(crate) fn sym_bytes<const N: usize>(arr: [u8; N], n: usize) -> bytes::Bytes {
+    let s: &'static [u8; N] = Box::leak(Box::new(arr));
+    bytes::Bytes::from_static(&s[..]).slice(..n)
+}
